@@ -176,6 +176,14 @@ def valid_case(draw, tier="quick"):
                 hi_c = lo_c
         # (the other bound in the unit of the data - a span of mixed units - or everything in seconds)
         extra = {"far_bounds": True, "bound_unit": draw(st.sampled_from(["s", "mixed", "mixed"]))}
+    elif kind == "dt" and draw(st.integers(0, 5)) == 0:
+        # corrupt / far-away time stamps in the data (year 3000, 9999, 1500) held in whole seconds, against bounds in
+        # nanoseconds: beyond what nanoseconds can hold, yet plainly outside the span
+        unit = "s"
+        for i in range(len(xs)):
+            if xs[i] is not None and draw(st.integers(0, 2)) == 0:
+                xs[i] = draw(st.sampled_from([32503680000, 253402214400, -14831769600]))
+        extra = {"far_data": True, "bound_unit": "ns"}
     elif kind == "dt" and draw(st.integers(0, 2)) == 0:
         # bounds finer than the data: whole-second instants in a datetime64[s] array, bounds on half seconds
         unit = "s"
@@ -200,7 +208,7 @@ def valid_case(draw, tier="quick"):
             elif hi_c is not None:
                 hi_c = b[0]
     return {"kind": kind, "x": xs, "lo": lo_c, "hi": hi_c, "si": draw(st.booleans()), "ei": draw(st.booleans()), **extra,
-            "unit": unit, "absent_as": draw(st.sampled_from(["none", "nan"])),
+            "unit": unit, "absent_as": draw(st.sampled_from(["none", "nan", "pdnat"] if kind == "dt" else ["none", "nan"])),
             "bound_type": draw(st.sampled_from(["np", "py"])), "span_kind": draw(st.sampled_from(["list", "tuple"])),
             "defaults": draw(st.integers(0, 3)) == 0,
             # missing values as NaN/NaT, or as masked elements hiding NaN or a finite value (inside or far outside the span)
@@ -236,6 +244,9 @@ def _valid_inputs(case):
 
         def bnd(v):
             if v is None:
+                if case["absent_as"] == "pdnat":
+                    import pandas as pd
+                    return pd.NaT
                 return None if case["absent_as"] == "none" else np.datetime64("NaT")
             if case["bound_type"] == "py":
                 try:
@@ -247,6 +258,8 @@ def _valid_inputs(case):
             bu = unit if case.get("bound_unit", "same") == "same" else "s"
             if case.get("bound_unit") == "mixed":
                 bu = "s" if abs(v) > 9e9 else unit
+            if case.get("bound_unit") == "ns":
+                bu = "ns"
             return np.datetime64(int(v), "s").astype(f"datetime64[{bu}]")
     mc = case.get("mask_carrier", "none")
     if mc != "none":
@@ -288,6 +301,8 @@ def check_valid(case, rec):
         labels.append("bounds_finer_than_data")
     if case.get("far_bounds"):
         labels.append("bounds_beyond_nanosecond_range")
+    if case.get("far_data"):
+        labels.append("data_beyond_nanosecond_range")
     rec.note(on, labels)
     a, span = _valid_inputs(case)
     kw = {} if case.get("defaults") else {"start_inclusive": si, "end_inclusive": ei}
